@@ -231,3 +231,149 @@ pub fn n_c01_text_roundtrip() {
     v2.serialize_internal(&mut t2);
     vk_check!(t1 == t2, "second serialization differs from the first");
 }
+
+// C08 (value level): strict accepts <=> lenient accepts without warnings, same value; lenient warning => strict fails with it
+#[cfg(not(kani))]
+fn n_uf_validator(_s: &[u8]) -> bool {
+    N_VALIDATOR_RESULT.with(|c| c.get())
+}
+#[cfg(not(kani))]
+std::thread_local! { static N_VALIDATOR_RESULT: std::cell::Cell<bool> = std::cell::Cell::new(true); }
+
+// independent reading of XML 1.0 references: every & starts &lt; &gt; &amp; &apos; &quot; &#[0-9]+; or &#x[0-9a-fA-F]+;
+#[cfg(not(kani))]
+fn n_entities_wellformed(raw: &[u8]) -> bool {
+    let mut i = 0;
+    while i < raw.len() {
+        if raw[i] != b'&' {
+            i += 1;
+            continue;
+        }
+        let rest = &raw[i..];
+        let mut matched = false;
+        for lit in [&b"&lt;"[..], b"&gt;", b"&amp;", b"&apos;", b"&quot;"] {
+            if rest.starts_with(lit) {
+                i += lit.len();
+                matched = true;
+                break;
+            }
+        }
+        if matched {
+            continue;
+        }
+        if rest.len() > 1 && rest[1] == b'#' {
+            let mut j = 2;
+            let hexa = rest.len() > 2 && rest[2] == b'x';
+            if hexa {
+                j = 3;
+            }
+            let mut k = j;
+            while k < rest.len() && (if hexa { rest[k].is_ascii_hexdigit() } else { rest[k].is_ascii_digit() }) {
+                k += 1;
+            }
+            if k > j && k < rest.len() && rest[k] == b';' {
+                i += k + 1;
+                continue;
+            }
+        }
+        return false;
+    }
+    true
+}
+
+#[cfg(not(kani))]
+pub fn n_c08_value() {
+    let input = replay_input();
+    let kind = vk::any_u8();
+    let preserve = vk::any_bool();
+    let ml = vk::any_usize();
+    let max_length = if ml == usize::MAX { None } else { Some(ml) };
+    static ITEMS: [(EnumItem, u32); 2] = [(EnumItem::default, 0x3ffff), (EnumItem::preserve, 0x0ffff)];
+    // the validator is an arbitrary predicate in the solver's encoding: replay with both constant predicates
+    for vres in [true, false] {
+        N_VALIDATOR_RESULT.with(|c| c.set(vres));
+        let spec = match kind {
+            0 => CharacterDataSpec::String { preserve_whitespace: preserve, max_length },
+            1 => CharacterDataSpec::Pattern { check_fn: n_uf_validator, regex: "<regex>", max_length },
+            2 => CharacterDataSpec::UnsignedInteger,
+            3 => CharacterDataSpec::Float,
+            _ => CharacterDataSpec::Enum { items: &ITEMS },
+        };
+        let mut ps = ArxmlParser::new(PathBuf::new(), &[], true);
+        let mut pl = ArxmlParser::new(PathBuf::new(), &[], false);
+        let rs = ps.parse_character_data(&input, &spec);
+        let rl = pl.parse_character_data(&input, &spec);
+        vk_check!(ps.warnings.is_empty(), "strict mode recorded a warning instead of failing");
+        match (&rs, &rl) {
+            (Ok(a), Ok(b)) => {
+                vk_check!(pl.warnings.is_empty(), "lenient loading warns about a value that strict loading accepts");
+                vk_check!(a == b || (matches!((a, b), (CharacterData::Float(x), CharacterData::Float(y)) if x.to_bits() == y.to_bits())), "strict and lenient loading produce different values");
+                match (&spec, a) {
+                    (CharacterDataSpec::String { .. }, CharacterData::String(_)) => {
+                        let t = trim_byte_string(&input);
+                        let raw = if preserve { &input[..] } else { t };
+                        vk_check!(max_length.is_none() || raw.len() <= max_length.unwrap(), "strict loading accepts a string longer than max_length");
+                        vk_check!(n_entities_wellformed(raw), "strict loading accepts a malformed entity / character reference");
+                    }
+                    (CharacterDataSpec::Pattern { .. }, CharacterData::String(_)) => {
+                        vk_check!(vres, "strict loading accepts a value its validator rejects");
+                        vk_check!(max_length.is_none() || trim_byte_string(&input).len() <= max_length.unwrap(), "strict loading accepts a pattern value longer than max_length");
+                    }
+                    (CharacterDataSpec::UnsignedInteger, CharacterData::UnsignedInteger(v)) => {
+                        let t = std::str::from_utf8(trim_byte_string(&input)).unwrap_or("x");
+                        let t = t.strip_prefix('+').unwrap_or(t);
+                        vk_check!(!t.is_empty() && t.bytes().all(|b| b.is_ascii_digit()), "strict loading accepts a non-numeric unsigned integer");
+                        let mut acc: u128 = 0;
+                        for b in t.bytes() { acc = acc * 10 + (b - b'0') as u128; }
+                        vk_check!(acc == *v as u128, "unsigned integer value differs from the decimal reading of the text");
+                    }
+                    _ => {}
+                }
+            }
+            (Ok(_), Err(_)) => vk_check!(false, "strict loading accepts a value that lenient loading rejects"),
+            (Err(es), Ok(_)) => {
+                vk_check!(!pl.warnings.is_empty(), "lenient loading silently accepts a value that strict loading rejects");
+                vk_check!(err_kind(es) == err_kind(&pl.warnings[0]), "strict error is not the first lenient warning");
+                vk_check!(parser_err_line(es) == parser_err_line(&pl.warnings[0]), "strict error and first lenient warning name different lines");
+            }
+            (Err(es), Err(el)) => {
+                if pl.warnings.is_empty() {
+                    vk_check!(err_kind(es) == err_kind(el), "strict error differs from the lenient hard error");
+                } else {
+                    vk_check!(err_kind(es) == err_kind(&pl.warnings[0]), "strict error is not the first lenient warning");
+                }
+            }
+        }
+    }
+}
+
+// C02 (value kernels): loading a value never panics (a panic inside the call reproduces the counterexample by itself)
+#[cfg(not(kani))]
+pub fn n_c02_value_total() {
+    let input = replay_input();
+    let kind = vk::any_u8();
+    let preserve = vk::any_bool();
+    let ml = vk::any_usize();
+    let strict = vk::any_bool();
+    let max_length = if ml == usize::MAX { None } else { Some(ml) };
+    static ITEMS: [(EnumItem, u32); 2] = [(EnumItem::default, 0x3ffff), (EnumItem::preserve, 0x0ffff)];
+    for vres in [true, false] {
+        N_VALIDATOR_RESULT.with(|c| c.set(vres));
+        let spec = match kind {
+            0 => CharacterDataSpec::String { preserve_whitespace: preserve, max_length },
+            1 => CharacterDataSpec::Pattern { check_fn: n_uf_validator, regex: "<regex>", max_length },
+            2 => CharacterDataSpec::UnsignedInteger,
+            3 => CharacterDataSpec::Float,
+            _ => CharacterDataSpec::Enum { items: &ITEMS },
+        };
+        let mut p = ArxmlParser::new(PathBuf::new(), &[], strict);
+        p.line = 1;
+        let r = p.parse_character_data(&input, &spec);
+        if let Err(e) = &r {
+            vk_check!(parser_err_line(e) == Some(1), "error names a line outside the document");
+        }
+        for w in &p.warnings {
+            vk_check!(parser_err_line(w) == Some(1), "warning names a line outside the document");
+        }
+    }
+}
